@@ -46,6 +46,9 @@ type Tunnel struct {
 	// LastSeen is when the server received the last packet from the client
 	LastSeen time.Time
 
+	// pending holds bytes read from transportIn that belong to the next packet(s)
+	pending []byte
+
 	// writeMu serializes Write: the packet loop and the relay goroutine both send to the client
 	writeMu sync.Mutex
 }
@@ -63,7 +66,7 @@ func (t *Tunnel) Write(pkt []byte) {
 // packet, with the header removed, and the packet size. It updates the
 // statistics for bytes received
 func (t *Tunnel) Read() (pt int, size int, pkt []byte, err error) {
-	pt, size, pkt, err = readMessage(t.transportIn)
+	pt, size, pkt, err = readMessage(t.transportIn, &t.pending)
 	t.BytesReceived += int64(size)
 	t.LastSeen = time.Now()
 
